@@ -83,7 +83,7 @@ def refresh():
     metas = sorted(glob.glob("/verif/seeded/*/meta.json"))
     jobs = [(os.path.join(os.path.dirname(d), "patch.diff"),) for d in metas]
     with mp.get_context("fork").Pool(8, maxtasksperchild=4) as pool:
-        res = pool.map_async(_detect_overlay, jobs, chunksize=1).get(timeout=1500)
+        res = pool.map_async(_detect_overlay, jobs, chunksize=1).get(timeout=3600)
     for d, (patch, fires, errs) in zip(metas, res):
         m = json.load(open(d))
         m["detected_by_checks"] = fires
